@@ -47,7 +47,7 @@ package ingress
 // never share namespace/name, so equal creation times are ordered by a key
 // that differs: the result does not depend on the input order.
 //@ func sortIngress
-//@   props C06
+//@   props C06 C03 C15
 //@   requires nonnil: forall a int :: 0 <= a && a < len(ingress) ==> ingress[a] != nil
 //@   modifies ingress[*]
 //@   ensures sorted: forall a int, b int :: 0 <= a && a < b && b < len(ingress) ==> !ingLess(ingress[b], ingress[a])
